@@ -125,6 +125,29 @@ func TestC08Handles(t *testing.T) {
 			acts[k] = base[k]
 		}
 		acts["remove3"], acts["restart2"], acts["rmdir2"], acts["mkdir2"] = base["remove"], base["restart"], base["rmdir"], base["mkdir"]
+		// a file too large to be freed inside the request that removes it (its inode is released by the background
+		// shrinker): made large by SETATTR (sparse) or by a write far out, then removed or replaced by a RENAME
+		acts["bigremove"] = func(t *rapid.T) {
+			files := g.unskipped(x.M.LiveKind(nt.NF3REG))
+			if cut || len(files) == 0 {
+				t.Skip("no file")
+			}
+			f := pick(t, files, "file")
+			sz := uint64(pick(t, []int{520, 600, 1100}, "blocks")) * BlockSize
+			if rapid.Bool().Draw(t, "sparse") {
+				judge(t, x.Setattr(LiveRef(f), &sz, false))
+			} else {
+				judge(t, x.Write(LiveRef(f), sz-BlockSize, patternData(g.nextTag(), BlockSize), BlockSize, nt.FILE_SYNC))
+			}
+			if cut || !f.Alive {
+				return
+			}
+			judge(t, x.Remove(LiveRef(f.Parent), f.Name))
+			if !cut {
+				x.call(func() { x.S.N.VerifWaitShrinkers() })
+				St.Class("removed_files_released_by_the_background_shrinker")
+			}
+		}
 		ncrash, nsweeps, nreusedSweeps := 0, 0, 0
 		// crash: abandon the running server at a quiescent point and recover from a copy of its disk
 		acts["crashrecover"] = func(t *rapid.T) {
